@@ -98,3 +98,272 @@ def select_config():
 def targets():
     return [Target('sim', 'SimOps.__init__', [select_config()], body_slice=block, label='primitive selection',
                    note='block `sp = None; for prefix, prims in kind_prefixes.items(): ...` of the per-node translation loop')]
+
+
+# ------------------------------------------------------------------------------------------------------ translation of one node
+"""The body of ``for n in circuit.topological_order():`` for one symbolic node n (C01, first anchor): which ops are appended for it.
+
+Node model: NOUT / NIN pin counts, OUT(k) / IN(k) = index of the line on pin k or -1 (None), kind seen only through
+``== '__fork__'``, ``'dff' in kind`` and ``startswith(prefix)``, membership / position in the interface (s_nodes) as free Boolean / integer.
+ensures (ops' = ops ++ rows, every row = (primitive, output, in0, in1, in2, in3, *a_ctrl[output])):
+  interface node that is not a fork with an input:   one BUF1 per connected output pin from its interface input slot  ppi_offset + position,
+        except output 1 of a flip-flop, which gets INV1; a flip-flop's pins beyond 1 get nothing;   operands 1..3 are the zero slot
+  fork:      with strip_forks nothing; else one BUF1 per connected output from (in0, in1, in2, in3)
+  cell:      one row (selected primitive, out0 or the tmp slot, in0..in3 with the zero slot for missing / unconnected pins), nothing if no prefix matches
+Rows appear in pin order; CNTO(k) = number of connected output pins below k (ghost recurrence) gives the position of pin k's row.
+"""
+I = z3.IntSort()
+OUT = z3.Function('OUTPIN', I, I)
+INP = z3.Function('INPIN', I, I)
+ACT = z3.Function('A_CTRL', I, I, I)
+CNTO = z3.Function('CNTO', I, I)
+
+
+class TLine(SInt):
+    """a pin entry: a Line (its index) or None (< 0)"""
+    __slots__ = ('is_none',)
+
+    def __init__(self, e):
+        super().__init__(e)
+        self.is_none = SBool(e < 0)
+
+
+class TLineObj(Model):
+    """a Line object or None: ``.index``, ``is None`` and use as an array index"""
+
+    def __init__(self, e):
+        self.e = e
+        self.is_none = SBool(e < 0)
+
+    def m_getattr(self, ex, st, name, node):
+        if name == 'index':
+            ex.prove(st, 'no-exception:AttributeError .index of None', self.e >= 0, node)
+            return SInt(self.e)
+        raise NotInSubset(f'line.{name}')
+
+
+class TPins(Model):
+    def __init__(self, fn, length, start=0):
+        self.fn, self.length, self.start = fn, length, start
+
+    def m_len(self, ex, st, node):
+        return SInt(z3.If(self.length - self.start > 0, self.length - self.start, 0))
+
+    def m_getitem(self, ex, st, idx, node):
+        if isinstance(idx, slice):
+            from pyvc.values import _conc_int
+            a = _conc_int(idx.start) if idx.start is not None else 0
+            if idx.stop is not None or idx.step is not None or a is None or a < 0:
+                raise NotInSubset('pin list slice other than [k:]')
+            return TPins(self.fn, self.length, self.start + a)
+        i = to_int(idx) + self.start
+        ex.prove(st, 'no-exception:IndexError pin list', z3.And(i >= self.start, i < self.length), node)
+        return TLineObj(self.fn(i))
+
+    def m_iter(self, ex, st, node):
+        from pyvc.engine import SymIter
+        n = z3.If(self.length - self.start > 0, self.length - self.start, 0)
+        ex.g['pin_iter_start'] = self.start
+        return SymIter(SInt(n), lambda ex_, st_, k: TLineObj(self.fn(to_int(k) + self.start)))
+
+
+class TKind(KindStr):
+    def m_compare(self, ex, st, op, a, b, node):
+        other = b if a is self else a
+        if other != '__fork__' or op not in (ast.Eq, ast.NotEq):
+            raise NotInSubset('comparison of the kind with something other than the fork kind')
+        r = z3.Bool('kind_is_fork')
+        return SBool(r if op is ast.Eq else z3.Not(r))
+
+    def m_contains(self, ex, st, a, node):
+        if a != 'dff':
+            raise NotInSubset('substring test on the kind other than dff')
+        return SBool(z3.Bool('kind_has_dff'))
+
+
+class TNode(Model):
+    def __init__(self, nout, nin):
+        self.nout, self.nin, self.kind = nout, nin, TKind()
+
+    def m_getattr(self, ex, st, name, node):
+        if name == 'outs':
+            return TPins(OUT, self.nout)
+        if name == 'ins':
+            return TPins(INP, self.nin)
+        if name == 'kind':
+            return self.kind
+        raise NotInSubset(f'node.{name}')
+
+
+class IfDict(Model):
+    """interface_dict: node -> position in s_nodes"""
+
+    def m_contains(self, ex, st, a, node):
+        if not isinstance(a, TNode):
+            raise NotInSubset('interface_dict key')
+        return SBool(z3.Bool('is_interface'))
+
+    def m_getitem(self, ex, st, idx, node):
+        ex.prove(st, 'no-exception:KeyError interface_dict[n]', z3.Bool('is_interface'), node)
+        return SInt(z3.Int('interface_pos'))
+
+
+class ACtrl(Model):
+    """a_ctrl[line or index] -> its row of three accumulation-control values"""
+
+    def m_getitem(self, ex, st, idx, node):
+        e = idx.e if isinstance(idx, TLineObj) else to_int(idx)
+        if isinstance(idx, TLineObj):
+            ex.prove(st, 'no-exception:TypeError None used as an index', e >= 0, node)
+        ex.prove(st, 'index-in-bounds:a_ctrl', z3.And(e >= 0, e < ex.g['nlines'] + 3), node)
+        return tuple(SInt(ACT(e, c)) for c in range(3))
+
+
+class OpsList(Model):
+    """the Python list ``ops`` of 9-tuples: heap['ops_len'], heap['ops_rows'] : Array Int -> Array Int -> Int"""
+
+    def m_getattr(self, ex, st, name, node):
+        if name == 'append':
+            def append(ex_, st_, args, kwargs, node_):
+                row = args[0]
+                if not (isinstance(row, tuple) and len(row) == 9):
+                    ex_.prove(st_, 'every op is a 9-tuple (primitive, out, 4 operands, 3 accumulation-control values)', False, node_)
+                    return
+                n = to_int(st_.heap['ops_len'])
+                r = st_.heap['ops_rows'][n]
+                for c, x in enumerate(row):
+                    r = z3.Store(r, c, to_int(x))
+                st_.heap['ops_rows'] = z3.Store(st_.heap['ops_rows'], n, r)
+                st_.heap['ops_len'] = SInt(n + 1)
+            return Method(append)
+        raise NotInSubset(f'list.{name}')
+
+
+def node_body(stmts):
+    for s in stmts:
+        if isinstance(s, ast.For) and 'topological_order' in ast.unparse(s.iter):
+            return list(s.body)
+    raise ContractError('per-node translation loop not found in SimOps.__init__')
+
+
+def node_config(strip):
+    def setup(ex):
+        st = State()
+        nout, nin, nlines, s_len = (ex.fv(n, 'int').e for n in ('n_outs', 'n_ins', 'n_lines', 's_len'))
+        k = z3.Int('k')
+        st.assume(SBool(z3.And(nout >= 0, nin >= 0, nlines >= 0, s_len >= 0,
+                               z3.ForAll([k], z3.And(OUT(k) >= -1, OUT(k) < nlines, INP(k) >= -1, INP(k) < nlines)),
+                               # normalisation: positions beyond the pin lists count as unconnected
+                               z3.ForAll([k], z3.And(z3.Implies(z3.Or(k < 0, k >= nout), OUT(k) == -1), z3.Implies(z3.Or(k < 0, k >= nin), INP(k) == -1))),
+                               z3.Int('interface_pos') >= 0, z3.Int('interface_pos') < s_len, CNTO(0) == 0,
+                               z3.ForAll([k], z3.Implies(k >= 0, z3.And(CNTO(k) >= 0, CNTO(k + 1) == CNTO(k) + z3.If(OUT(k) >= 0, 1, 0)))),
+                               # monotone in k (induction over the recurrence; proved as base + step in cnto_lemmas)
+                               z3.ForAll([k, z3.Int('k2')], z3.Implies(z3.And(0 <= k, k <= z3.Int('k2')), CNTO(k) <= CNTO(z3.Int('k2')))))))
+        zero, tmp, ppi = nlines, nlines + 1, nlines + 3
+        st.heap['ops_len'] = ex.fv('ops_len', 'int')
+        st.assume(SBool(to_int(st.heap['ops_len']) >= 0))
+        st.heap['ops_rows'] = z3.Array('ops_rows0', I, z3.ArraySort(I, I))
+        selfo = SObj.new(st, 'self', zero_idx=SInt(zero), tmp_idx=SInt(tmp), tmp2_idx=SInt(tmp + 1), ppi_offset=SInt(ppi))
+        ex.readonly.update({('self', f) for f in ('zero_idx', 'tmp_idx', 'tmp2_idx', 'ppi_offset')})
+        node = TNode(nout, nin)
+        st.env.update(self=selfo, n=node, interface_dict=IfDict(), a_ctrl=ACtrl(), ops=OpsList(), strip_forks=strip)
+        for nm in ('BUF1', 'INV1', 'kind_prefixes', 'print'):
+            pass
+        ex.g = dict(nout=nout, nin=nin, nlines=nlines, zero=zero, tmp=tmp, ppi=ppi, node=node, len0=to_int(st.heap['ops_len']), rows0=st.heap['ops_rows'])
+        return st
+
+    def row_is(rows, j, vals):
+        return z3.And(*[rows[j][c] == v for c, v in enumerate(vals)])
+
+    def G(ex):
+        g = ex.g
+        isif, isfork, isdff = z3.Bool('is_interface'), z3.Bool('kind_is_fork'), z3.Bool('kind_has_dff')
+        inp = lambda k: z3.If(z3.And(g['nin'] > k, INP(k) >= 0), INP(k), g['zero'])
+        fork_in = z3.And(isfork, g['nin'] > 0, INP(0) >= 0)
+        iface = z3.And(isif, z3.Not(fork_in))
+        return g, isif, isfork, isdff, inp, iface
+
+    def expected_row(ex, k):
+        """the row appended for connected output pin k (interface node / fork)"""
+        g, isif, isfork, isdff, inp, iface = G(ex)
+        BUF1, INV1 = int(ex.globs['BUF1']), int(ex.globs['INV1'])
+        o = OUT(k)
+        src = g['ppi'] + z3.Int('interface_pos')
+        if_row = [z3.If(z3.And(isdff, k == 1), INV1, BUF1), o, src, g['zero'], g['zero'], g['zero']] + [ACT(o, c) for c in range(3)]
+        fk_row = [BUF1, o, inp(0), inp(1), inp(2), inp(3)] + [ACT(o, c) for c in range(3)]
+        return [z3.If(iface, a, b_) for a, b_ in zip(if_row, fk_row)]
+
+    def pins_inv(ex, st, first):
+        """loop over the output pins from ``first``: rows of the pins passed so far are in place"""
+        g = ex.g
+        kk = to_int(st.env[[v for v in st.env if v.startswith('__k')][-1]]) + first
+        rows, n = st.heap['ops_rows'], to_int(st.heap['ops_len'])
+        base = g['len0'] + (z3.If(OUT(0) >= 0, 1, 0) if first == 1 else 0)
+        p, j = z3.Ints('p j')
+        yield 'length = rows before + connected pins passed so far', SBool(n == base + CNTO(kk) - CNTO(first))
+        yield 'the row of every connected pin passed so far is in place, in pin order', \
+            SBool(z3.ForAll([p], z3.Implies(z3.And(first <= p, p < kk, OUT(p) >= 0), row_is(rows, base + CNTO(p) - CNTO(first), expected_row(ex, p)))))
+        yield 'frame: earlier rows are untouched', SBool(z3.ForAll([j], z3.Implies(z3.And(0 <= j, j < base), rows[j] == st.heap['ops_rows_base'][j])))
+
+    def post(ex, st):
+        g, isif, isfork, isdff, inp, iface = G(ex)
+        rows, n = st.heap['ops_rows'], to_int(st.heap['ops_len'])
+        len0, rows0 = g['len0'], g['rows0']
+        p, j = z3.Ints('p j')
+        yield 'frame: the rows of earlier nodes are untouched', SBool(z3.ForAll([j], z3.Implies(z3.And(0 <= j, j < len0), rows[j] == rows0[j])))
+        # number of rows
+        npins = z3.If(isdff, z3.If(g['nout'] < 2, g['nout'], 2), g['nout'])
+        cnt_if = CNTO(z3.If(npins > 0, npins, 0))
+        kind = g['node'].kind
+        table = ex.globs['kind_prefixes']
+        anym = z3.Or(*[kind.starts(pfx) for pfx in table])
+        want_n = z3.If(iface, cnt_if, z3.If(isfork, (z3.IntVal(0) if strip else CNTO(g['nout'])), z3.If(anym, 1, 0)))
+        yield 'number of rows appended for the node', SBool(n == len0 + want_n)
+        yield 'interface node / fork: one row per connected output pin, in pin order, of the stated form', \
+            SBool(z3.ForAll([p], z3.Implies(z3.And(z3.Or(iface, z3.And(isfork, z3.BoolVal(not strip))), 0 <= p, p < z3.If(iface, npins, g['nout']), OUT(p) >= 0),
+                                            row_is(rows, len0 + CNTO(p), expected_row(ex, p)))))
+        sel = lambda prims: z3.If(inp(3) != g['zero'], int(prims[0]), z3.If(inp(2) != g['zero'], int(prims[1]), int(prims[2])))
+        want = z3.IntVal(-1)
+        for pfx, prims in reversed(list(table.items())):
+            want = z3.If(kind.starts(pfx), sel(prims), want)
+        o0 = z3.If(z3.And(g['nout'] > 0, OUT(0) >= 0), OUT(0), g['tmp'])
+        yield 'cell: one row (selected primitive, out0 or tmp, in0..in3 or the zero slot, a_ctrl row of the output)', \
+            SBool(z3.Implies(z3.And(z3.Not(iface), z3.Not(isfork), anym), row_is(rows, len0, [want, o0, inp(0), inp(1), inp(2), inp(3)] + [ACT(o0, c) for c in range(3)])))
+        ex.prove(st, 'mustfail:no node ever produces an op', SBool(n == len0), ex.fn, expect='refuted')
+
+    def mk_inv(first):
+        def inv(ex, st):
+            if 'ops_rows_base' not in st.heap:
+                st.heap['ops_rows_base'] = st.heap['ops_rows']
+            yield from pins_inv(ex, st, first)
+        return inv
+
+    def print_model(ex, st, args, kwargs, node):
+        return None
+    contract = {'post': post, 'loop_body': True, 'expr_fork': True,
+                'loop_match': {0: ('n.outs[1:]', 0), 1: ('n.outs', 1)},
+                'loops': {0: {'inv': mk_inv(1), 'modifies': ['ops_rows', 'ops_len'], 'kinds': {'o_line': 'keep'}},
+                          1: {'inv': mk_inv(0), 'modifies': ['ops_rows', 'ops_len'], 'kinds': {'o_line': 'keep'}}}}
+    cfg = Config(f'any node, strip_forks={strip}', contract, setup, None)
+    return cfg
+
+
+def node_prims(globs):
+    return {print: lambda ex, st, args, kwargs, node: None}
+
+
+def cnto_lemmas():
+    from pyvc.verify import Lemmas
+
+    def build():
+        k1, k2 = z3.Ints('k1 k2')
+        step = CNTO(k2 + 1) == CNTO(k2) + z3.If(OUT(k2) >= 0, 1, 0)
+        yield 'CNTO-mono base', [], CNTO(k1) <= CNTO(k1)
+        yield 'CNTO-mono step', [step, CNTO(k1) <= CNTO(k2)], CNTO(k1) <= CNTO(k2 + 1)
+        yield 'mustfail:CNTO is constant', [step], CNTO(k2 + 1) == CNTO(k2), 'refuted'
+    return Lemmas('lemma:CNTO monotone (induction on the upper index)', build, note='justifies the assumed monotonicity clause of the per-node translation contract')
+
+
+def targets_node():
+    return [Target('sim', 'SimOps.__init__', [node_config(False), node_config(True)], prims=node_prims, body_slice=node_body, instantiate='fallback', label='translation of one node',
+                   note='body of `for n in circuit.topological_order():` for one symbolic node'), cnto_lemmas()]
